@@ -2,7 +2,10 @@ import OV.Lemmas.C17
 import OV.Gen.C17Grid
 import OV.Gen.C17CoverS
 import OV.Gen.C17CoverM
+import OV.Gen.C17CoverK
 import OV.Gen.C17Checks
+import OV.Gen.C17IrMap
+import OV.Gen.C17ChecksNames
 /-!
 # C17 — generated opset classes mirror the ONNX operator schemas exactly
 
@@ -660,6 +663,275 @@ theorem option_applies_only_without_default_domain (declared : Option (Nat × Na
   unfold exportImports
   simp only [hnone]
   cases opt <;> rfl
+
+/-! ## names are numbers: the encoding on the regenerated name set -/
+
+/-- **name_codes_faithful.**  For every text that occurs in the regenerated tables — operator, class, module,
+parameter, attribute and domain names, string defaults — the number the Python translator wrote for it is the
+model's `enc` of that text (the kernel evaluates `enc` on each string: table fact `names_enc`). -/
+theorem name_codes_faithful (p : String × Nat) (hp : p ∈ names) : enc p.1 = p.2 := by
+  have := List.all_eq_true.mp names_enc p hp
+  exact beq_iff_eq.mp this
+
+/-- **name_codes_injective.**  On that name set the encoding is injective: two texts of the tables with the same
+code are the same text — so every equality of codes the model tests (`s.name == n`, `m.call.1 == s.name`,
+`findKw`, …) is the equality of names the Python code tests (table fact `names_increasing`). -/
+theorem name_codes_injective (p q : String × Nat) (hp : p ∈ names) (hq : q ∈ names)
+    (h : enc p.1 = enc q.1) : p.1 = q.1 := by
+  rw [name_codes_faithful p hp, name_codes_faithful q hq] at h
+  rw [increasing_inj names_increasing hp hq h]
+
+/-- non-vacuity: the name set contains `"Clip"`, `""`, `"ai.onnx.ml"`, `"Opset13"` with the codes used everywhere -/
+example : names.contains ("Clip", 5426145648) = true ∧ names.contains ("", 1) = true ∧
+    names.contains ("ai.onnx.ml", 1668935622595193164688748) = true ∧
+    names.contains ("Opset13", 94417758123733299) = true := by decide +kernel
+
+/-! ## the one-node model an eager call is run as (`_prepare_model_and_inputs_for_eager`), end to end -/
+
+/-- `aiOnnx` is the code of the text `"ai.onnx"` (the kernel evaluates `enc` on the string). -/
+example : enc "ai.onnx" = aiOnnx := by decide +kernel
+
+/-- **schema_keys_unique.**  In the installed registry a key (name, since_version, domain) names one schema
+(table fact `keys_unique`: per operator name the since_versions are pairwise distinct). -/
+theorem schema_keys_unique (s s' : Schema) (hs : s ∈ schemas) (hs' : s' ∈ schemas) (hk : s.key = s'.key) :
+    s = s' :=
+  key_unique keys_unique schemas_covered hs hs' hk
+
+/-- **get_schema_at_since.**  If `get_schema(n, N, d)` is `s`, then `get_schema(n, s.since_version, d)` is `s`
+itself: a model that imports the domain at a schema's own since_version denotes exactly that schema. -/
+theorem get_schema_at_since (d N n : Nat) (s : Schema) (h : lookup schemas d N n = some s) :
+    lookup schemas d s.since n = some s :=
+  lookup_at_since_eq keys_unique schemas_covered h
+
+/-- non-vacuity: `get_schema("Clip", 20, "")` is `Clip(13)`, and `get_schema("Clip", 13, "")` is the same key -/
+example : (lookup schemas 1 20 5426145648).map Schema.key = some (5426145648, 13, 1) ∧
+    (lookup schemas 1 13 5426145648).map Schema.key = some (5426145648, 13, 1) := by decide +kernel
+
+/-- **eager_model_resolves_to_class_schema.**  Take any generated class `OpsetN` (any domain) and any name `n`
+that resolves on it to a method `m`, and any eager call `opsetN.n(*args, **kw)` that gets as far as the runtime.
+The one-node model handed to the runtime has `op_type = n`, the class's domain, and imports that domain at the
+`since_version` of the schema `s = get_schema(n, N, domain)` — and the runtime, resolving the node under that
+import, finds `s` itself: eager evaluation through the static
+method and the dynamic lookup `opsetN[n]` (which translation uses) denote the same operator version.  A schema
+marked deprecated never gets this far (the class offers a raising stub). -/
+theorem eager_model_resolves_to_class_schema {α} (c : Cls) (hc : c ∈ classes) (n : Nat) (m : Method)
+    (hr : resolve classes c.domain c.version n = some m) (im : List ((Nat × Nat) × Nat))
+    (args : List (Option α)) (kw : List (Nat × Dflt)) (M : EagerModel α)
+    (h : eagerRun schemas im m args kw = some M) :
+    ∃ s, lookup schemas c.domain c.version n = some s ∧ s.deprecated = false ∧
+      M.opType = n ∧ M.domain = c.domain ∧ M.opsetImport = (c.domain, s.since) ∧
+      lookup schemas M.domain M.opsetImport.2 M.opType = some s := by
+  rcases methods_mirror c hc n m hr with ⟨s, hs, hmir⟩
+  have hsp := lookup_some hs
+  unfold eagerRun at h
+  cases hcall : eagerCall m args kw with
+  | none => rw [hcall] at h; cases h
+  | some node =>
+    rw [hcall] at h
+    simp only at h
+    cases hdep : s.deprecated with
+    | true =>
+      exfalso
+      have hcell := cell_all c hc n
+      rw [hs, hr] at hcell
+      simp only [cellOk, hdep, if_true] at hcell
+      simp only [eagerCall, hcell, if_true] at hcall
+      cases hcall
+    | false =>
+      rcases hmir hdep with ⟨hstub, hm⟩
+      simp only [eagerCall, hstub, Bool.false_eq_true, if_false] at hcall
+      have hkey := (eager_default_eq_bare_node m s hm args kw node hcall).1
+      have hk1 : node.key.1 = n := by rw [hkey]; exact hsp.2.2.1
+      have hk2 : node.key.2.1 = s.since := by rw [hkey]; rfl
+      have hk3 : node.key.2.2 = c.domain := by rw [hkey]; exact hsp.2.1
+      rw [hk1, hk2, hk3] at h
+      have hl' := get_schema_at_since _ _ _ _ hs
+      rw [hl'] at h
+      simp only [Option.some.injEq] at h
+      subst h
+      refine ⟨s, hs, hdep, hsp.2.2.1, hsp.2.1, ?_, ?_⟩
+      · simp only [modelOf, hsp.2.1]
+      · simp only [modelOf]
+        rw [hsp.2.1, hsp.2.2.1]; exact hl'
+
+/-- **eager_run_reaches_runtime.**  On the generated classes the `get_schema(<literals>)` statement of a method
+body never raises: whenever Python binding and forwarding succeed (`eagerCall`), the call reaches the runtime,
+with the node's inputs named by position (`""` for `None`), the non-`None` keywords as attributes, and the
+non-`None` inputs fed. -/
+theorem eager_run_reaches_runtime {α} (c : Cls) (hc : c ∈ classes) (n : Nat) (m : Method)
+    (hr : resolve classes c.domain c.version n = some m) (im : List ((Nat × Nat) × Nat))
+    (args : List (Option α)) (kw : List (Nat × Dflt)) (node : Node α)
+    (h : eagerCall m args kw = some node) :
+    ∃ M, eagerRun schemas im m args kw = some M ∧ M.inputNames = renameFrom 0 node.inputs ∧
+      M.attrs = dropNone node.attrs ∧ M.feeds = feedsFrom 0 node.inputs := by
+  rcases methods_mirror c hc n m hr with ⟨s, hs, hmir⟩
+  have hsp := lookup_some hs
+  cases hdep : s.deprecated with
+  | true =>
+    exfalso
+    have hcell := cell_all c hc n
+    rw [hs, hr] at hcell
+    simp only [cellOk, hdep, if_true] at hcell
+    simp only [eagerCall, hcell, if_true] at h
+    cases h
+  | false =>
+    rcases hmir hdep with ⟨hstub, hm⟩
+    have h' := h
+    simp only [eagerCall, hstub, Bool.false_eq_true, if_false] at h'
+    have hkey := (eager_default_eq_bare_node m s hm args kw node h').1
+    have hk1 : node.key.1 = n := by rw [hkey]; exact hsp.2.2.1
+    have hk2 : node.key.2.1 = s.since := by rw [hkey]; rfl
+    have hk3 : node.key.2.2 = c.domain := by rw [hkey]; exact hsp.2.1
+    rcases lookup_at_since hs with ⟨s', hl', _⟩
+    refine ⟨modelOf im s' node.inputs node.attrs, ?_, rfl, rfl, rfl⟩
+    unfold eagerRun
+    rw [h]
+    simp only
+    rw [hk1, hk2, hk3, hl']
+
+/-- **eager_model_inputs.**  For the one-node model of any schema, inputs and attributes: the node has one input
+name per argument; position `j` is `""` exactly when argument `j` is `None` and `input{j}` otherwise (so an inner
+`None` keeps the later inputs at their schema positions); the session is fed exactly the non-empty names, in
+order, and `input{k}` is fed the caller's argument number `k`. -/
+theorem eager_model_inputs {α} (im : List ((Nat × Nat) × Nat)) (s : Schema) (ins : List (Option α))
+    (attrs : List (Nat × Dflt)) :
+    let M := modelOf im s ins attrs
+    M.inputNames.length = ins.length ∧
+      (∀ j (hj : j < ins.length), M.inputNames[j]? = some ((ins[j]'hj).map (fun _ => j))) ∧
+      M.feeds.map Prod.fst = M.inputNames.filterMap id ∧
+      (∀ k v, (k, v) ∈ M.feeds → ins[k]? = some (some v)) := by
+  refine ⟨renameFrom_length 0 ins, ?_, feeds_names 0 ins, ?_⟩
+  · intro j hj
+    have := renameFrom_get 0 ins j hj
+    simp only [Nat.zero_add] at this
+    exact this
+  · intro k v hkv
+    have := (feedsFrom_mem 0 ins k v hkv).2
+    simpa only [Nat.sub_zero] using this
+
+/-- **eager_model_means_written_attributes.**  For every generated class and every name resolving on it: the
+attributes of the one-node model an eager call is run as — the forwarded keywords minus those whose value is
+`None` — mean, for every attribute of the schema in force, exactly what the bare node carrying only the
+caller's own keywords means.  (`eager_default_eq_bare_node` pushed through the `value is not None` filter; the
+distinctness of parameter names it needs is the kernel-checked table fact `params_distinct`.) -/
+theorem eager_model_means_written_attributes {α} (c : Cls) (hc : c ∈ classes) (n : Nat) (m : Method)
+    (hr : resolve classes c.domain c.version n = some m) (im : List ((Nat × Nat) × Nat))
+    (args : List (Option α)) (kw : List (Nat × Dflt)) (M : EagerModel α)
+    (h : eagerRun schemas im m args kw = some M) :
+    ∃ s, lookup schemas c.domain c.version n = some s ∧ meaning s M.attrs = meaning s kw := by
+  rcases methods_mirror c hc n m hr with ⟨s, hs, hmir⟩
+  refine ⟨s, hs, ?_⟩
+  unfold eagerRun at h
+  cases hcall : eagerCall m args kw with
+  | none => rw [hcall] at h; cases h
+  | some node =>
+    rw [hcall] at h
+    simp only at h
+    cases hl : lookup schemas node.key.2.2 node.key.2.1 node.key.1 with
+    | none => rw [hl] at h; cases h
+    | some s' =>
+      rw [hl] at h
+      simp only [Option.some.injEq] at h
+      subst h
+      cases hdep : s.deprecated with
+      | true =>
+        exfalso
+        have hcell := cell_all c hc n
+        rw [hs, hr] at hcell
+        simp only [cellOk, hdep, if_true] at hcell
+        simp only [eagerCall, hcell, if_true] at hcall
+        cases hcall
+      | false =>
+        rcases hmir hdep with ⟨hstub, hm⟩
+        simp only [eagerCall, hstub, Bool.false_eq_true, if_false] at hcall
+        have hmean := (eager_default_eq_bare_node m s hm args kw node hcall).2
+        -- keys of the forwarded attributes = the keyword-only parameter names, pairwise distinct
+        rcases resolve_some hr with ⟨c', hc', _, _, hmem, _⟩
+        have hpd := List.all_eq_true.mp (List.all_eq_true.mp params_distinct c' hc') m hmem
+        have hnd : (m.kwonly.map Prod.fst).Nodup := by
+          have := distinctNat_nodup hpd
+          exact (List.nodup_append.mp this).2.1
+        have hkeys : (node.attrs.map Prod.fst).Nodup := by
+          have hm' := hm
+          simp only [mirrors, Bool.and_eq_true] at hm'
+          have hfwd := natPairList_beq_eq hm'.2
+          -- unfold the call to reach `fwdKw`
+          unfold eagerNode at hcall
+          cases hbp : bindPos m.pos args with
+          | none => rw [hbp] at hcall; simp at hcall
+          | some pe =>
+            rcases pe with ⟨pos, extra⟩
+            rw [hbp] at hcall
+            simp only at hcall
+            split at hcall
+            · simp at hcall
+            · split at hcall
+              · simp at hcall
+              · cases hbk : bindKw m.kwonly kw with
+                | none => rw [hbk] at hcall; simp at hcall
+                | some bound =>
+                  rw [hbk] at hcall
+                  simp only at hcall
+                  cases hfv : fwdValues pos extra m.fwdInputs with
+                  | none => rw [hfv] at hcall; simp at hcall
+                  | some ins =>
+                    cases hfk : fwdKw bound m.fwdAttrs with
+                    | none => rw [hfv, hfk] at hcall; simp at hcall
+                    | some attrs =>
+                      rw [hfv, hfk] at hcall
+                      simp only [Option.some.injEq] at hcall
+                      subst hcall
+                      simp only
+                      rw [fwdKw_keys hfk, hfwd, List.map_map]
+                      exact hnd
+        simp only [modelOf]
+        rw [← hmean]
+        simp only [meaning]
+        apply List.map_congr_left
+        intro a _
+        rw [attrMeaning_dropNone hkeys a]
+
+/-- **eager_and_translated_denote_same_schema** (the property's last sentence, end to end, default domain).
+Let `OpsetN` be a generated default-domain class, `n` a name resolving on it, and take (i) any eager call
+`opsetN.n(*args, **kw)` that reaches the runtime, with its one-node model `M`, and (ii) any script function whose
+body calls `opsetN` and whose translation succeeds, exported with any `opset_version` option under any installed
+onnx.  Then the exported model imports `''` at `N`; `get_schema(n, N, '')` — the schema a node `n` of the exported
+model denotes — is some `s`; and the runtime resolving `M`'s node under `M`'s own import finds that same `s`.  Composition of `exported_import_means_class`, `methods_mirror` and
+`eager_model_resolves_to_class_schema`. -/
+theorem eager_and_translated_denote_same_schema {α} (c : Cls) (hc : c ∈ classes) (hd : c.domain = 1) (n : Nat)
+    (m : Method) (hr : resolve classes c.domain c.version n = some m) (im : List ((Nat × Nat) × Nat))
+    (args : List (Option α)) (kw : List (Nat × Dflt)) (M : EagerModel α)
+    (h : eagerRun schemas im m args kw = some M)
+    (declared : Option (Nat × Nat)) (evs : List Ev) (st : ConvState)
+    (ht : convert declared evs = .ok st) (hv : Ev.call 1 c.version ∈ evs) (opt : Option Nat) (current : Nat) :
+    ∃ v s, findTok 1 (exportImports st.imports opt current) = some v ∧
+      lookup schemas 1 v n = some s ∧
+      lookup schemas M.domain M.opsetImport.2 M.opType = some s := by
+  rcases eager_model_resolves_to_class_schema c hc n m hr im args kw M h with ⟨s, hs, _, _, _, _, hk⟩
+  refine ⟨c.version, s, (exported_import_means_class declared evs st ht c.version hv opt current).2, ?_, hk⟩
+  rw [← hd]; exact hs
+
+/-- non-vacuity and a concrete reading: `opset20.Clip(x, None, hi)` (inherited from `Opset13`) reaches the
+runtime as the model `Clip`, domain `''`, inputs `input0, "", input2`, import `('', 13)`, ir_version 10 = max(7, 10),
+feeds `input0, input2`; `opset_ai_onnx_ml3.LabelEncoder(x)` imports `('ai.onnx.ml', 2)` with ir_version
+max(6, 10). -/
+example : (match resolve classes 1 20 5426145648 with
+    | some m => (eagerRun schemas irMap m ([some 7, none, some 9] : List (Option Nat)) []).map
+        (fun M => (M.opType, M.domain, M.inputNames, M.opsetImport, M.irVersion, M.feeds)) ==
+          some (5426145648, 1, [some 0, none, some 2], (1, 13), 10, [(0, 7), (2, 9)])
+    | none => false) = true := by decide +kernel
+
+example : (match resolve classes 1668935622595193164688748 3 102866753728027417819308385650 with
+    | some m => (eagerRun schemas irMap m ([some 7] : List (Option Nat)) []).map
+        (fun M => (M.inputNames, M.opsetImport, M.irVersion)) ==
+          some ([some 0], (1668935622595193164688748, 2), 10)
+    | none => false) = true := by decide +kernel
+
+/-- `ir_version` floor and fallback of `select_ir_version` on the regenerated `OP_SET_ID_VERSION_MAP`: opset 1
+of `''` needs ir 3 → 10; a listed newer pair keeps its own; an unlisted (domain, version) gets the newest
+`ai.onnx` one. -/
+example : selectIrVersion irMap 1 1 = 10 ∧ selectIrVersion irMap 25 1 = 13 ∧
+    selectIrVersion irMap 999 1 = maxIrOf aiOnnx irMap ∧ 10 ≤ maxIrOf aiOnnx irMap := by decide +kernel
 
 /-- non-vacuity (domains: `''` = 1, `ai.onnx.ml` = 1668935622595193164688748): `opset_ai_onnx_ml3.Scaler` then
 `opset11.Relu` then `opset_ai_onnx_ml2.Binarizer`, no declared default: imports `[ml 3, '' 11]`, one version
